@@ -1,5 +1,6 @@
 """M rules: the spin lock (mutex.rs, backoff.rs).  DESIGN.md §3.9."""
 from engine import rule
+import fam
 import sem
 from sem import labels, has, contains
 from mir import fmt, canon, is_const, atomic_method
@@ -522,7 +523,8 @@ def m6(ctx):
                         'lock_api::Mutex::try_lock_for', 'lock_api::Mutex::try_lock_until'):
                 ctx.oblige(1)
                 ctx.instance('%s calls %s' % (key, name))
-                if key not in ('internal::acquire_internal', 'internal::try_acquire_internal'):
+                if key not in ('internal::acquire_internal', 'internal::try_acquire_internal') and not fam.allowed_for(
+                        ctx, key, {'internal::acquire_internal', 'internal::try_acquire_internal'}):
                     ctx.violate(key, None, 'channel mutex locked outside acquire_internal/try_acquire_internal', at=t.get('at'), sig='lock-outside')
 
 
